@@ -1,5 +1,7 @@
 #!/bin/sh
-# Builds the analyzer from files on disk only (module cache; no network).
+# Builds the analyzer from files on disk only (module cache; no network), then loads /repo once so that
+# the build cache holds the export data the loader asks `go list -export` for (a cold first load is ~50 s,
+# a warm one ~2 s; twenty cold loads side by side would run into the analyzer's 240 s watchdog).
 set -e
 cd "$(dirname "$0")"
 export GOFLAGS=-mod=mod GOPROXY=off GOSUMDB=off GOTOOLCHAIN=local
@@ -7,3 +9,5 @@ unset GOWORK
 mkdir -p bin evidence
 (cd analyzer && go build -o ../bin/alliancecheck .)
 echo "built bin/alliancecheck"
+./bin/alliancecheck -repo "${VERIF_REPO:-/repo}" -verif "$(pwd)" -property C19 -tier quick -no-evidence >/dev/null 2>&1 || true
+echo "loader cache warm"
